@@ -21,6 +21,7 @@ from .types import (
     TInt,
     TList,
     TMap,
+    TOMap,
     TOpt,
     TRec,
     TRef,
@@ -364,6 +365,13 @@ class StmtMixin:
             raise Unsupported("for-else")
         it = self.eval(s.iter)
         it = self.iterable_view(it)
+        from .omap import View
+
+        if isinstance(it, SV) and isinstance(it.ty, TOMap):
+            it = it.ty.keys(it)
+        if isinstance(it, View):
+            self.run_loop(s, kind="for", iterable=it)
+            return
         if isinstance(it, (tuple, list)):
             for x in it:
                 self.assign(s.target, x)
@@ -384,7 +392,13 @@ class StmtMixin:
         if inv is None:
             raise Unsupported(f"loop #{ordinal} at L{s.lineno} of {self.frame_fn().qualname} has no invariant")
         ghosts = {}
-        if kind == "for":
+        from .omap import View
+
+        if kind == "for" and isinstance(iterable, View):
+            ghosts["view"] = iterable
+            ghosts["seq"] = None
+            ghosts["idx"] = lift(0)
+        elif kind == "for":
             if isinstance(iterable.ty, (TSeq, TList)) or iterable.ty == TStr:
                 ghosts["seq"] = iterable
                 ghosts["idx"] = lift(0)
@@ -403,6 +417,7 @@ class StmtMixin:
             c.loc = type(c.loc)(self.visible_locals())
             c.idx = ghosts.get("idx")
             c.seq = ghosts.get("seq")
+            c.view = ghosts.get("view")
             c.visited = ghosts.get("visited")
             try:
                 r = inv(c)
@@ -434,7 +449,7 @@ class StmtMixin:
         if "idx" in ghosts:
             ghosts["idx"] = TInt.fresh("i")
             self.assume(ghosts["idx"] >= 0)
-            self.assume(ghosts["idx"] <= ghosts["seq"].length())
+            self.assume(ghosts["idx"] <= (ghosts["view"].n if "view" in ghosts else ghosts["seq"].length()))
         if "visited" in ghosts:
             ghosts["visited"] = ghosts["seq"].ty.fresh("visited")
             self.assume(ghosts["visited"].subset(ghosts["seq"]))
@@ -446,14 +461,17 @@ class StmtMixin:
             cond = self.truth(self.eval(s.test))
             enter = self.branch(cond)
         elif "idx" in ghosts:
-            enter = self.branch(ghosts["idx"] < ghosts["seq"].length())
+            enter = self.branch(ghosts["idx"] < (ghosts["view"].n if "view" in ghosts else ghosts["seq"].length()))
         else:
             enter = self.branch(~(ghosts["visited"] == ghosts["seq"]))
         if not enter:
             self.loop_exit_ghosts = ghosts
             return
         if kind == "for":
-            if "idx" in ghosts:
+            if "view" in ghosts:
+                x = ghosts["view"].elem(ghosts["idx"])
+                nxt = dict(ghosts, idx=ghosts["idx"] + 1)
+            elif "idx" in ghosts:
                 x = ghosts["seq"][ghosts["idx"]]
                 ghosts["cur"] = x
                 nxt = dict(ghosts, idx=ghosts["idx"] + 1)
